@@ -1,4 +1,4 @@
-import SimplicityModel.ValueCmp
+import SimplicityModel.ValueBuilt
 import SimplicityModel.Driver.Util
 /-!
 Value expressions of the C10 / C11 line protocol (trusted glue, no proofs): a value is given by the
@@ -9,6 +9,7 @@ evaluates it with the `RVal` model (`ValueRVal.lean`), the harness with the real
     L e T             Value::left(e, T)            R T e     Value::right(T, e)
     P e e             Value::product(e, e)         Z T       Value::zero(T)
     W n hex           Value::u1 … u512 (n = 0 … 9) with the given bytes
+    B n hex           Value::buffer8_two_n_plus_one(n, bytes)
     DP T skip hex     Value::from_padded_bits on the bits of `hex` after skipping `skip` of them
     DC T skip hex     Value::from_compact_bits, same input convention
     AL e / AR e       e.as_left() / e.as_right()   (`.to_value()`)
@@ -28,17 +29,12 @@ def digitVal (c : Char) : Option Nat :=
   if '0' ≤ c ∧ c ≤ '9' then some (c.toNat - '0'.toNat)
   else if 'a' ≤ c ∧ c ≤ 'f' then some (c.toNat - 'a'.toNat + 10) else none
 
-/-- `(2^8)^<2^(n+1)` as in `types/precomputed.rs` -/
-def bufTy : Nat → Ty
-  | 0 => .sum .one (Ty.word 3)
-  | n + 1 => .prod (.sum .one (Ty.word (n + 4))) (bufTy n)
-
 partial def parseTy : List Char → Option (Ty × List Char)
   | '1' :: r => some (.one, r)
   | '+' :: r => do let (a, r1) ← parseTy r; let (b, r2) ← parseTy r1; pure (.sum a b, r2)
   | '*' :: r => do let (a, r1) ← parseTy r; let (b, r2) ← parseTy r1; pure (.prod a b, r2)
   | 'w' :: c :: r => do let n ← digitVal c; pure (Ty.word n, r)
-  | 'b' :: c :: r => do let n ← digitVal c; pure (bufTy n, r)
+  | 'b' :: c :: r => do let n ← digitVal c; pure (Ty.buf8 n, r)
   | _ => none
 
 def ty? (s : String) : Option Ty :=
@@ -109,6 +105,12 @@ partial def evalE : List String → R (RVal × List String)
     let n ← need n.toNat? "bad-expr"
     let bs ← need (Drv.hexBytes? hex) "bad-hex"
     pure (RVal.word n bs, r)
+  | "B" :: n :: hex :: r => do
+    let n ← need n.toNat? "bad-expr"
+    let bs ← need (Drv.hexBytes? hex) "bad-hex"
+    match RVal.buffer8 n bs with
+    | some v => pure (v, r)
+    | none => throw "too-long"
   | "DP" :: t :: skip :: hex :: r => do
     let a ← need (ty? t) "bad-type"
     let inp ← need (inputBits skip hex) "bad-hex"
